@@ -241,6 +241,57 @@ def check_records(module, consts, recs, spec="CheckSpec", chunks=None, timeout=9
     return checked, bad, results
 
 
+def validate_traces(module, consts, traces, invariants=(), spec="TraceSpec", chunks=None, timeout=900, name=None, extra_files=None):
+    """Trace validation (code -> spec). traces: list of JSON-able executions recorded from the real code; `module` follows the
+    pattern of spec/TcpclTrace.tla (TraceInit picks tr, Accept prints ACCEPTED, Reject prints REJECTED with position and state).
+    Returns (accepted_count, rejected [(index, info)], invariant_violations [(index, invariant)], [TlcResult])."""
+    from concurrent.futures import ThreadPoolExecutor
+    if not traces:
+        return 0, [], [], []
+    chunks = chunks or min(NCPU, max(1, len(traces) // 40))
+    per = (len(traces) + chunks - 1) // chunks
+
+    def one(c):
+        idxs = list(range(c * per, min(len(traces), (c + 1) * per)))
+        acc, rej, inv, results = set(), [], [], []
+        for _ in range(8):
+            if not idxs:
+                break
+            path = write_input("%s-%s-%d.ndjson" % (name or module, os.getpid(), c), [traces[i] for i in idxs])
+            cfg = "SPECIFICATION %s\nCONSTANTS\n%s\n TraceFile = \"%s\"\n" % (spec, consts, path)
+            if invariants:
+                cfg += "INVARIANTS " + " ".join(invariants) + "\n"
+            r = run_tlc(module=module, cfg_text=cfg, name="%s-%d" % (name or module, c), workers=1, deadlock=False,
+                        timeout=timeout, extra_files=extra_files)
+            results.append(r)
+            if r.rc == 12 and r.violated:
+                m = re.findall(r"^/\\ tr = (\d+)", r.out, flags=re.M)
+                if not m:
+                    raise InfraError("invariant violated during trace validation but trace index not found\n" + r.out[-1500:])
+                k = int(m[-1]) - 1
+                inv.append((idxs[k], r.violated))
+                idxs = idxs[:k] + idxs[k + 1:]
+                continue
+            need_ok(r, "trace validation " + (name or module))
+            for a in r.tagged.get("ACCEPTED", []):
+                acc.add(idxs[a["tr"] - 1])
+            for j in r.tagged.get("REJECTED", []):
+                rej.append((idxs[j["tr"] - 1], j))
+            missing = [i for i in idxs if i not in acc and i not in {x for x, _ in rej}]
+            if missing:
+                raise InfraError("trace validation: %d traces neither accepted nor rejected" % len(missing))
+            break
+        return acc, rej, inv, results
+    accepted, rejected, invs, results = set(), [], [], []
+    with ThreadPoolExecutor(max_workers=NCPU) as ex:
+        for acc, rej, inv, res in ex.map(one, range(chunks)):
+            accepted |= acc
+            rejected += rej
+            invs += inv
+            results += res
+    return len(accepted), rejected, invs, results
+
+
 def read_ndjson(path):
     out = []
     with open(path) as fh:
